@@ -83,6 +83,21 @@ pub mod unit_hmc {
         &&& step_rows::<B, G>(pre, post, own_momenta(state(pre.rng), n, d), own_uniforms(s1, n))
         &&& state(post.rng) == unif_state(s1, n as nat)
     }
+    // ---- C14: a trajectory ending at zero / undefined density is rejected (acceptance draws equal to exactly 0 excepted) ----
+    pub open spec fn bad_density(a: XR) -> bool { a is NaN || a is NegInf }
+    pub proof fn lemma_hmc_row_rejects_zero_density<B: AutodiffBackend, G: BatchedGradientTarget<B>>(t: &G, eps: XR, l: nat, x: V, p: V, u: XR, out: V)
+        requires
+            row_rule::<B, G>(t, eps, l, x, p, u, out),
+            bad_density(t.lp(verlet_n::<B, G>(t, eps, half_of(eps), x, p, l).0)),      // the end point has log-density -inf or NaN (divergent trajectory, NaN gradient, ...)
+            u is Fin && u->Fin_0 > 0real,                                                // acceptance draw not exactly 0
+        ensures out == x                                                                 // [C14.hmc_rejects_zero_or_nan_density_endpoint]
+    {
+        let (x1, p1) = verlet_n::<B, G>(t, eps, half_of(eps), x, p, l);
+        let h1 = ham::<B, G>(t, x1, p1);
+        assert(h1 is NaN || h1 is PosInf);
+        assert(xr_ln(u) is Fin);
+    }
+
     // ---- C09 for HMC::run: existential history of sampler values linked by the step contract ----
     pub open spec fn hmc_hist_ok<B: AutodiffBackend, G: BatchedGradientTarget<B>>(h: Seq<HMC<B, G>>, first: HMC<B, G>, last: HMC<B, G>, total: int) -> bool {
         &&& h.len() == total + 1 && h[0] == first && h[total] == last
